@@ -91,6 +91,12 @@ def gen(path, text, ops):
                 if re.search(r"\[[^\]]*;\s*$", c[:m.start()]):
                     pass  # array length: let the compiler decide
                 ms.append(("INT", i, c[:m.start()] + str(int(m.group(1)) + 1) + c[m.end():] + tail))
+        if "PRED" in ops and path.endswith(".rs"):
+            for a, b in ((".all(", ".any("), (".any(", ".all("), (".is_some()", ".is_none()"), (".is_none()", ".is_some()"), (".is_ok()", ".is_err()"), (".is_err()", ".is_ok()"),
+                         (".min(", ".max("), (".max(", ".min("), ("fetch_add(", "fetch_sub("), ("fetch_sub(", "fetch_add("), ("wrapping_add(", "wrapping_sub("),
+                         (" + 1", " - 1"), (" - 1", " + 1"), ("Ok(", "Err("), ("Some(result)", "None")):
+                for m in re.finditer(re.escape(a), c):
+                    ms.append(("PRED", i, c[:m.start()] + b + c[m.end():] + tail))
         if "QM" in ops and path.endswith(".rs"):
             # drop error propagation:  `expr?;`  ->  `let _ = expr;`
             m = re.match(r"^(\s*)([^=]*\S)\?;\s*$", c.rstrip("\n"))
